@@ -388,6 +388,53 @@ def extension_sweep(rep):
                 rep.property_failure(case, f"{entry} over {dt}: surviving rows {got}, the rows without a missing value are {want}")
 
 
+def frame_check_sweep(rep, rng, n):
+    """constraints whose failure cases are whole rows (a dataframe-level check returning one boolean per row) and
+    element-wise checks that are shown the nulls (`ignore_na=False`): the violating rows are dropped whatever the other
+    columns hold (nulls in particular), on any unique index"""
+    import numpy as np
+    import pandera as pa
+    for _ in range(n):
+        m = rng.randint(1, 6)
+        v = [rng.choice([-1.0, 1.0, 2.0, np.nan]) for _ in range(m)]
+        w = [rng.choice([5.0, np.nan, np.nan, 7.0]) for _ in range(m)]
+        labels = rng.choice([list(range(m)), [f"r{i}" for i in range(m)], rng.sample(range(10, 40), m)])
+        df = pd.DataFrame({"v": v, "w": w}, index=labels)
+        kind = rng.choice(["frame-rowwise", "frame-rowwise", "elementwise-not-ignoring-na", "vectorised-not-ignoring-na"])
+        if kind == "frame-rowwise":
+            schema = pa.DataFrameSchema({"v": pa.Column(float, nullable=True), "w": pa.Column(float, nullable=True)},
+                                        checks=pa.Check(lambda d: d["v"].fillna(1) > 0), drop_invalid_rows=True)
+            want = [i for i, x in enumerate(v) if not (x == x and x <= 0)]
+        elif kind == "elementwise-not-ignoring-na":
+            schema = pa.DataFrameSchema({"v": pa.Column(float, pa.Check(lambda x: x > 0, element_wise=True, ignore_na=False),
+                                                        nullable=True), "w": pa.Column(float, nullable=True)},
+                                        drop_invalid_rows=True)
+            want = [i for i, x in enumerate(v) if x == x and x > 0]
+        else:
+            schema = pa.DataFrameSchema({"v": pa.Column(float, pa.Check(lambda s_: s_ > 0, ignore_na=False), nullable=True),
+                                         "w": pa.Column(float, nullable=True)}, drop_invalid_rows=True)
+            want = [i for i, x in enumerate(v) if x == x and x > 0]
+        case = {"entries": True, "sweep": "frame-checks", "kind": kind, "v": [None if x != x else x for x in v],
+                "w": [None if x != x else x for x in w], "labels": [str(x) for x in labels]}
+        with warnings.catch_warnings():
+            warnings.simplefilter("ignore")
+            try:
+                out = schema.validate(df.copy(), lazy=True)
+            except Exception as e:  # noqa: BLE001
+                rep.count(f"frame-checks:{kind}:{type(e).__name__}")
+                rep.property_failure(case, f"{kind}: drop_invalid_rows raised {type(e).__name__} on row-level violations only: "
+                                           f"{str(e)[:80]}")
+                continue
+        got = [labels.index(x) for x in out.index.tolist()]
+        rep.case(case, nontrivial=len(got) < m)
+        rep.evaluations += 1
+        rep.count(f"frame-checks:{kind}:ok")
+        if got != want:
+            rep.property_failure(case, f"{kind}: surviving rows {got}, the rows satisfying the constraint are {want}",
+                                 detail={"valid_rows_dropped": [i for i in want if i not in got],
+                                         "invalid_rows_kept": [i for i in got if i not in want]})
+
+
 def entry_region(c, a, missing, extra):
     """K_C11_nullDuplicates only: a kept row whose duplicated value is null"""
     if missing or not extra:
@@ -415,6 +462,7 @@ def run(tier, replay=None):
         elif case.get("entries"):
             run_entries(rep, rng_for(PROP, "entries"), 300)
             extension_sweep(rep)
+            frame_check_sweep(rep, rng_for(PROP, "frame-checks"), 200)
         else:
             run_cases(rep, [case])
         return rep.finish(rule="replay")
@@ -423,6 +471,7 @@ def run(tier, replay=None):
     run_polars(rep, rng, n // 4)
     run_entries(rep, rng_for(PROP, "entries"), 300 if tier == "quick" else 6000)
     extension_sweep(rep)
+    frame_check_sweep(rep, rng_for(PROP, "frame-checks"), 200 if tier == "quick" else 4000)
     return rep.finish(
         rule="C03's generator with drop_invalid_rows=True, lazy validation and a unique index (int and str labels, "
              "labels with quotes): surviving positions (recovered through the labels) vs the positions on which every "
